@@ -480,6 +480,13 @@ static inline Result parse(const std::string& s) {
   return parse((const uint8_t*)s.data(), s.size());
 }
 
+// release all heap memory held by a value (plain assignment of an empty value may keep
+// std::string / std::vector capacity, which disturbs heap-balance oracles)
+static inline void release(Value& v) {
+  Value tmp;
+  std::swap(v, tmp);
+}
+
 // value equality: objects order-insensitive (first match wins; callers use it
 // on duplicate-free values where that matters), number kinds distinguished,
 // doubles by bit pattern.
@@ -615,6 +622,9 @@ static inline void write_json(const Value& v, std::string& out) {
         if (c == '"' || c == '\\') {
           out.push_back('\\');
           out.push_back((char)c);
+        } else if (c == '\b' || c == '\f' || c == '\n' || c == '\r' || c == '\t') {
+          out.push_back('\\');
+          out.push_back(c == '\b' ? 'b' : c == '\f' ? 'f' : c == '\n' ? 'n' : c == '\r' ? 'r' : 't');
         } else if (c < 0x20) {
           out += "\\u00";
           out.push_back(hx[c >> 4]);
